@@ -1,6 +1,7 @@
 package main
 
 import (
+	"time"
 	"fmt"
 	"sort"
 
@@ -69,6 +70,58 @@ func init() {
 				runs++
 			}
 		}
+		// date sweep: every certificate lint on a few objects it applies to, re-dated (in the parsed structure) to every
+		// distinct effective / ineffective date of the registry, one second before and after: branches that depend on the
+		// date (rule versions folded into one body) are reached
+		g := lint.GlobalRegistry()
+		dateSet := map[int64]time.Time{}
+		for _, l := range g.CertificateLints().Lints() {
+			for _, d := range []time.Time{l.EffectiveDate, l.IneffectiveDate} {
+				if !d.IsZero() && d.Year() > 1990 {
+					dateSet[d.Unix()] = d
+				}
+			}
+		}
+		sweep := 0
+		perLint := 3
+		if tier() == "thorough" {
+			perLint = 12
+		}
+		for _, l := range g.CertificateLints().Lints() {
+			found := 0
+			for k := 0; k < len(corpus.Certs) && found < perLint; k++ {
+				cc := corpus.Certs[(k*37+len(l.Name)*11)%len(corpus.Certs)]
+				ok := false
+				func() {
+					defer func() { recover() }()
+					ok = scopeOK("cert", string(l.Source), absCert(cc.Cert)) && l.Lint().CheckApplies(cc.Cert)
+				}()
+				if !ok {
+					continue
+				}
+				found++
+				for _, d := range dateSet {
+					for _, dl := range []time.Duration{-time.Second, 0, time.Second} {
+						c2 := *cc.Cert
+						dur := cc.Cert.NotAfter.Sub(cc.Cert.NotBefore)
+						c2.NotBefore = d.Add(dl)
+						c2.NotAfter = c2.NotBefore.Add(dur)
+						var r *lint.LintResult
+						func() {
+							defer func() { recover() }()
+							r = l.Execute(&c2, lint.NewEmptyConfig())
+						}()
+						sweep++
+						if r != nil {
+							if _, seen := observed[l.Name][int(r.Status)]; !seen {
+								note(l.Name, int(r.Status), fmt.Sprintf("%s re-dated to notBefore=%s", cc.File, c2.NotBefore.Format(time.RFC3339)))
+							}
+						}
+					}
+				}
+			}
+		}
+		out.Stats["date_sweep_runs"] = sweep
 		out.Stats["lint_results_observed"] = runs
 		var obsList []map[string]interface{}
 		for _, n := range sortedKeys(observed) {
